@@ -65,6 +65,8 @@ Theorem C13_sqrootmodprimepower_end_to_end_partial : Sqrootmodprimepower_sweep_s
 Print Assumptions C13_sqrootmodprimepower_end_to_end_partial.
 Theorem C13_brillhart_two_squares_partial : Brillhart_sweep_stmt.    Proof. exact brillhart_sweep. Qed.
 Print Assumptions C13_brillhart_two_squares_partial.
+Theorem C13_kronecker_is_euler_criterion_partial : Kronecker_euler_stmt.  Proof. exact kronecker_euler_sweep. Qed.
+Print Assumptions C13_kronecker_is_euler_criterion_partial.
 Theorem C13_logp_is_floor_log : Logp_correct_stmt.                   Proof. exact logp_correct. Qed.
 Print Assumptions C13_logp_is_floor_log.
 Theorem C13_sqrootmodpoweroftwo_sound : Sqrootmodpoweroftwo_sound_stmt.   Proof. exact sqrootmodpoweroftwo_sound. Qed.
